@@ -329,3 +329,25 @@ Definition position (p : phase) : option (option Z) :=
   | PItems rv _ | PLoop rv | PWatch rv _ | PWatchWait rv _ | POpen rv | PGot rv _ => Some rv
   | _ => None
   end.
+
+(* ------------------------------------------------------------------------------------------
+   kopf/_cogs/clients/api.py iter_jsonlines: lines out of arbitrarily chunked bytes.
+   `scan` is the inner `while index >= 0` over one buffer: the complete non-empty lines in order and
+   the unterminated rest (`buffer = buffer[start:]`); `feed` is the `async for data in ...` loop with
+   the final `if buffer: yield buffer`. Bytes are numbers; 10 is the newline. *)
+Fixpoint scan (buf : list Z) (acc : list Z) : list (list Z) * list Z :=
+  match buf with
+  | [] => ([], acc)
+  | b :: buf' =>
+      if Z.eqb b 10
+      then let (ls, r) := scan buf' [] in (match acc with [] => ls | _ => acc :: ls end, r)
+      else scan buf' (acc ++ [b])
+  end.
+
+Fixpoint feed (chunks : list (list Z)) (buffer : list Z) : list (list Z) :=
+  match chunks with
+  | [] => match buffer with [] => [] | _ => [buffer] end
+  | d :: rest => let (ls, r) := scan (buffer ++ d) [] in ls ++ feed rest r
+  end.
+
+Definition jsonlines (chunks : list (list Z)) : list (list Z) := feed chunks [].
